@@ -292,3 +292,711 @@ Proof.
 Qed.
 
 End Branch.
+
+(* ------------------------------------------------------------------------------------------ *)
+(* Part 3: the model text of Model/DailyCurve.v at the real instance equals the closed form     *)
+(* ------------------------------------------------------------------------------------------ *)
+
+Section ModelFacts.
+Variables lo hi : R.
+Hypothesis Hlo : lo <= 0.
+Hypothesis Hhi : 0 <= hi.
+Notation N := (RNumOf lo hi).
+
+Lemma clip_nonpos : forall a : R, a <= 0 -> @n_clip N a lo hi = Rmax a lo.
+Proof.
+  intros a Ha. unfold n_clip. cbn.
+  unfold Rltb. destruct (Rlt_dec a lo) as [H|H].
+  - destruct (Rlt_dec hi lo); [lra|]. rewrite Rmax_right by lra. reflexivity.
+  - destruct (Rlt_dec hi a); [lra|]. rewrite Rmax_left by lra. reflexivity.
+Qed.
+
+Lemma evaluate_heating : forall icpt hbeta hk hbp T : R, 0 <= hbeta -> 0 <= hk -> T <= hbp ->
+  evaluate N icpt (- hbeta, hk, hbp) T = icpt + branch lo hbeta hk (hbp - T).
+Proof.
+  intros icpt hbeta hk hbp T Hb Hk HT. unfold evaluate. cbn.
+  unfold Reqb. destruct (Req_EM_T (- hbeta) 0) as [E|E].
+  - assert (hbeta = 0) by lra. subst. unfold branch. ring.
+  - destruct (Req_EM_T hk 0) as [E2|E2].
+    + subst hk. rewrite branch_k0. ring.
+    + assert (Hkpos : 0 < hk) by lra.
+      assert (Harg : 1 / hk * (T - hbp) <= 0).
+      { assert (0 <= (hbp - T) / hk) by (apply Rmult_le_pos; [lra | left; apply Rinv_0_lt_compat; lra]).
+        replace (1 / hk * (T - hbp)) with (- ((hbp - T) / hk)) by (field; lra). lra. }
+      rewrite (clip_nonpos _ Harg).
+      unfold branch, sm.
+      replace (1 / hk * (T - hbp)) with (- ((hbp - T) / hk)) by (field; lra).
+      replace (- hbeta * hk) with (- (hbeta * hk)) by ring. rewrite Rabs_Ropp.
+      rewrite Rabs_right by (apply Rle_ge, Rmult_le_pos; lra).
+      ring.
+Qed.
+
+Lemma evaluate_cooling : forall icpt cbeta ck cbp T : R, 0 <= cbeta -> 0 <= ck -> cbp <= T ->
+  evaluate N icpt (cbeta, - ck, cbp) T = icpt + branch lo cbeta ck (T - cbp).
+Proof.
+  intros icpt cbeta ck cbp T Hb Hk HT. unfold evaluate. cbn.
+  unfold Reqb. destruct (Req_EM_T cbeta 0) as [E|E].
+  - subst. unfold branch. ring.
+  - destruct (Req_EM_T (- ck) 0) as [E2|E2].
+    + assert (ck = 0) by lra. subst ck. rewrite branch_k0. ring.
+    + assert (Hkpos : 0 < ck) by lra.
+      assert (Harg : 1 / - ck * (T - cbp) <= 0).
+      { assert (0 <= (T - cbp) / ck) by (apply Rmult_le_pos; [lra | left; apply Rinv_0_lt_compat; lra]).
+        replace (1 / - ck * (T - cbp)) with (- ((T - cbp) / ck)) by (field; lra). lra. }
+      rewrite (clip_nonpos _ Harg).
+      unfold branch, sm.
+      replace (1 / - ck * (T - cbp)) with (- ((T - cbp) / ck)) by (field; lra).
+      replace (cbeta * - ck) with (- (cbeta * ck)) by ring. rewrite Rabs_Ropp.
+      rewrite Rabs_right by (apply Rle_ge, Rmult_le_pos; lra).
+      ring.
+Qed.
+
+Definition mkx (hb hbeta hk cb cbeta ck i : R) : fullx N := Build_fullx N hb hbeta hk cb cbeta ck i.
+
+
+Lemma order_bps_id : forall hbp hbeta hk cbp cbeta ck icpt : R, hbp <= cbp ->
+  order_bps N (mkx hbp hbeta hk cbp cbeta ck icpt) = mkx hbp hbeta hk cbp cbeta ck icpt.
+Proof.
+  intros. unfold order_bps. cbn. unfold Rltb. destruct (Rlt_dec cbp hbp); [lra | reflexivity].
+Qed.
+
+Lemma regime_heating : forall hbp hbeta hk cbp cbeta ck icpt Tmin Tmax T : R, T < hbp ->
+  regime N (mkx hbp hbeta hk cbp cbeta ck icpt) Tmin Tmax T = (- hbeta, hk, hbp).
+Proof.
+  intros. unfold regime. cbn. unfold Rltb. destruct (Rlt_dec T hbp); [reflexivity | lra].
+Qed.
+
+Lemma regime_cooling : forall hbp hbeta hk cbp cbeta ck icpt Tmin Tmax T : R,
+  hbp <= cbp -> (hbp = cbp -> cbp < Tmax) -> cbp < T ->
+  regime N (mkx hbp hbeta hk cbp cbeta ck icpt) Tmin Tmax T = (cbeta, - ck, cbp).
+Proof.
+  intros * Ho Hreg HT. unfold regime. cbn. unfold n_geb, n_gtb. cbn. unfold Rltb, Reqb, Rleb.
+  destruct (Rlt_dec T hbp); [lra|]. cbn [orb].
+  destruct (Req_EM_T hbp cbp) as [He|He]; cbn [andb].
+  - destruct (Rle_dec Tmax cbp); [specialize (Hreg He); lra|].
+    destruct (Rlt_dec cbp T); [reflexivity | lra].
+  - destruct (Rlt_dec cbp T); [reflexivity | lra].
+Qed.
+
+(* between the balance points: no load, or (equal balance points at or below T_min) the cooling
+   branch at distance 0 *)
+Lemma regime_between : forall hbp hbeta hk cbp cbeta ck icpt Tmin Tmax T : R,
+  (hbp = cbp -> cbp < Tmax) -> hbp <= T <= cbp ->
+  let r := regime N (mkx hbp hbeta hk cbp cbeta ck icpt) Tmin Tmax T in
+  r = (0, 0, 0) \/ (r = (cbeta, - ck, cbp) /\ T = cbp).
+Proof.
+  intros * Hreg [H1 H2]. unfold regime. cbn. unfold n_geb, n_gtb. cbn. unfold Rltb, Reqb, Rleb.
+  destruct (Rlt_dec T hbp); [lra|]. cbn [orb].
+  destruct (Rlt_dec cbp T); [lra|]. cbn [orb].
+  destruct (Req_EM_T hbp cbp) as [He|He]; cbn [andb].
+  - destruct (Rle_dec Tmax cbp); [specialize (Hreg He); lra|].
+    destruct (Rle_dec hbp Tmin); [right; split; [reflexivity | lra] | left; reflexivity].
+  - left; reflexivity.
+Qed.
+
+Lemma evaluate_tidd : forall icpt T : R, evaluate N icpt (0, 0, 0) T = icpt.
+Proof. intros. unfold evaluate. cbn. unfold Reqb. destruct (Req_EM_T 0 0); [reflexivity | lra]. Qed.
+
+(* the kernel on an ordered, sign-correct 7-vector outside the regime-switch corner *)
+Lemma full_model1_curve : forall hbp hbeta hk cbp cbeta ck icpt Tmin Tmax T : R,
+  hbp <= cbp -> 0 <= hbeta -> 0 <= cbeta -> 0 <= hk -> 0 <= ck ->
+  (hbp = cbp -> cbp < Tmax) \/ (hbeta = 0 /\ cbeta = 0) ->
+  full_model1 N (mkx hbp hbeta hk cbp cbeta ck icpt) Tmin Tmax T = curve lo hbp hbeta hk cbp cbeta ck icpt T.
+Proof.
+  intros hbp hbeta hk cbp cbeta ck icpt Tmin Tmax T Hord Hhb Hcb Hhk Hck Hreg.
+  unfold full_model1. rewrite order_bps_id by exact Hord.
+  change (x_hdd_beta (mkx hbp hbeta hk cbp cbeta ck icpt)) with hbeta.
+  change (x_cdd_beta (mkx hbp hbeta hk cbp cbeta ck icpt)) with cbeta.
+  change (x_intercept (mkx hbp hbeta hk cbp cbeta ck icpt)) with icpt.
+  change (@n_eqb N hbeta n_zero) with (Reqb hbeta 0). change (@n_eqb N cbeta n_zero) with (Reqb cbeta 0).
+  change (@n_mul N n_one icpt) with (1 * icpt).
+  destruct (Reqb hbeta 0 && Reqb cbeta 0) eqn:Eb.
+  - apply andb_true_iff in Eb. destruct Eb as [E1 E2]. apply Reqb_true in E1, E2. subst.
+    unfold curve, branch. change (carrier N) with R. ring.
+  - destruct Hreg as [Hreg|[Z1 Z2]].
+    2:{ subst. unfold Reqb in Eb. destruct (Req_EM_T 0 0); [discriminate | lra]. }
+    clear Eb. destruct (Rlt_dec T hbp) as [H1|H1].
+    + rewrite regime_heating by exact H1. rewrite evaluate_heating by lra.
+      rewrite curve_heating_side by lra. reflexivity.
+    + destruct (Rlt_dec cbp T) as [H2|H2].
+      * rewrite regime_cooling by assumption. rewrite evaluate_cooling by lra.
+        rewrite curve_cooling_side by lra. reflexivity.
+      * assert (Hb : hbp <= T <= cbp) by lra.
+        destruct (regime_between hbp hbeta hk cbp cbeta ck icpt Tmin Tmax T Hreg Hb) as [Hr|[Hr Ht]];
+          rewrite Hr.
+        -- rewrite evaluate_tidd. rewrite curve_flat by lra. reflexivity.
+        -- rewrite evaluate_cooling by lra. rewrite curve_cooling_side by lra. reflexivity.
+Qed.
+
+(* ---------------- fix_full_model_x on an ordered vector *)
+Definition good (x : fullx N) : Prop :=
+  x_hdd_bp x <= x_cdd_bp x /\ 0 <= x_hdd_beta x /\ 0 <= x_cdd_beta x /\ 0 <= x_hdd_k x /\ 0 <= x_cdd_k x.
+
+Lemma fix_ordered : forall hbp hbeta hk cbp cbeta ck icpt Tlo Thi : R, hbp <= cbp ->
+  exists hbeta' hk' cbeta' ck',
+    fix_full_model_x N (mkx hbp hbeta hk cbp cbeta ck icpt) Tlo Thi = mkx hbp hbeta' hk' cbp cbeta' ck' icpt /\
+    (hbeta' = hbeta \/ hbeta' = 0) /\ (cbeta' = cbeta \/ cbeta' = 0) /\
+    (hk' = hk \/ hk' = 0) /\ (ck' = ck \/ ck' = 0) /\
+    (hbeta' = 0 -> hk' = 0) /\ (cbeta' = 0 -> ck' = 0) /\
+    (hbeta' <> 0 -> hk' = hk) /\ (cbeta' <> 0 -> ck' = ck) /\
+    ((hbp = cbp \/ (Tlo < hbp /\ cbp < Thi)) -> hbeta' = hbeta /\ cbeta' = cbeta).
+Proof.
+  intros * Hord. unfold fix_full_model_x. rewrite order_bps_id by exact Hord. cbn.
+  unfold n_neqb, n_geb. cbn. unfold Reqb, Rleb.
+  destruct (Req_EM_T hbp cbp) as [He|He]; cbn [negb].
+  - cbn [fst snd]. destruct (Req_EM_T hbeta 0), (Req_EM_T cbeta 0);
+    do 4 eexists; (split; [reflexivity|]); repeat split; auto; intros; try lra; try contradiction.
+  - destruct (Rle_dec Thi cbp) as [H1|H1]; [|destruct (Rle_dec hbp Tlo) as [H2|H2]]; cbn [fst snd].
+    + destruct (Req_EM_T hbeta 0), (Req_EM_T 0 0); try lra;
+      do 4 eexists; (split; [reflexivity|]); repeat split; auto; intros; try lra; try contradiction;
+      try (destruct H as [H|[H H']]; lra).
+    + destruct (Req_EM_T 0 0), (Req_EM_T cbeta 0); try lra;
+      do 4 eexists; (split; [reflexivity|]); repeat split; auto; intros; try lra; try contradiction;
+      try (destruct H as [H|[H H']]; lra).
+    + destruct (Req_EM_T hbeta 0), (Req_EM_T cbeta 0);
+      do 4 eexists; (split; [reflexivity|]); repeat split; auto; intros; try lra; try contradiction.
+Qed.
+
+(* ---------------- get_smooth_coeffs *)
+Lemma tup4_eq : forall a b c d a' b' c' d' : R, a = a' -> b = b' -> c = c' -> d = d' ->
+  (a, b, c, d) = (a', b', c', d').
+Proof. intros; subst; reflexivity. Qed.
+
+Lemma min_pct_k_R : min_pct_k N = 1 / 100.
+Proof. unfold min_pct_k, n_hundred, n_ten, n_two. cbn. f_equal. ring. Qed.
+
+Lemma smooth_coeffs_spec : forall hbp ph cbp pc : R, hbp <= cbp -> 0 <= ph -> 0 <= pc ->
+  exists hk ck : R,
+    get_smooth_coeffs N hbp ph cbp pc = (hbp + hk, hk, cbp - ck, ck) /\
+    0 <= hk /\ 0 <= ck /\ hk + ck <= cbp - hbp /\
+    (ph = 0 -> hk = 0) /\ (pc = 0 -> ck = 0) /\
+    (ph + pc <= 1 -> (hk = 0 /\ ck = 0) \/ (hk = ph * (cbp - hbp) /\ ck = pc * (cbp - hbp))) /\
+    (1 < ph + pc -> hk = ph / (ph + pc) * (cbp - hbp) /\ ck = pc / (ph + pc) * (cbp - hbp)).
+Proof.
+  intros hbp ph cbp pc Hord Hph Hpc. unfold get_smooth_coeffs.
+  destruct (@n_ltb N ph (min_pct_k N) && @n_ltb N pc (min_pct_k N)) eqn:Emin.
+  - exists 0, 0. change (@n_zero N) with 0. split; [apply tup4_eq; ring|].
+    apply andb_true_iff in Emin. destruct Emin as [E1 E2].
+    change (@n_ltb N ph (min_pct_k N)) with (Rltb ph (min_pct_k N)) in E1.
+    change (@n_ltb N pc (min_pct_k N)) with (Rltb pc (min_pct_k N)) in E2.
+    apply Rltb_true in E1, E2. rewrite min_pct_k_R in E1, E2.
+    split; [lra|]. split; [lra|]. split; [lra|]. split; [reflexivity|]. split; [reflexivity|].
+    split; [intros _; left; split; reflexivity | intros; lra].
+  - clear Emin. cbn. unfold n_gtb. cbn. unfold Rltb.
+    assert (Hw : 0 <= cbp - hbp) by lra.
+    destruct (Rlt_dec 1 (ph + pc)) as [Hs|Hs]; cbn [fst snd].
+    + assert (Hsp : 0 < ph + pc) by lra.
+      exists (ph / (ph + pc) * (cbp - hbp)), (pc / (ph + pc) * (cbp - hbp)).
+      split; [apply tup4_eq; field; lra|].
+      assert (0 <= ph / (ph + pc)) by (apply Rmult_le_pos; [lra | left; apply Rinv_0_lt_compat; lra]).
+      assert (0 <= pc / (ph + pc)) by (apply Rmult_le_pos; [lra | left; apply Rinv_0_lt_compat; lra]).
+      split; [apply Rmult_le_pos; lra|]. split; [apply Rmult_le_pos; lra|].
+      split. { right. field. lra. }
+      split. { intros ->. unfold Rdiv. ring. }
+      split. { intros ->. unfold Rdiv. ring. }
+      split; [intros; lra | intros _; split; reflexivity].
+    + exists (ph * (cbp - hbp)), (pc * (cbp - hbp)).
+      split; [apply tup4_eq; field; lra|].
+      split; [apply Rmult_le_pos; lra|]. split; [apply Rmult_le_pos; lra|].
+      split. { replace (ph * (cbp - hbp) + pc * (cbp - hbp)) with ((ph + pc) * (cbp - hbp)) by ring.
+               rewrite <- (Rmult_1_l (cbp - hbp)) at 2. apply Rmult_le_compat_r; lra. }
+      split. { intros ->. ring. }
+      split. { intros ->. ring. }
+      split; [intros _; right; split; reflexivity | intros; lra].
+Qed.
+
+Local Arguments fix_full_model_x : simpl never.
+Local Arguments get_smooth_coeffs : simpl never.
+Local Arguments full_model1 : simpl never.
+(* ---------------- admissible stored coefficients and the vector handed to the kernel *)
+Definition bounds_ok (tc : tconstr N) : Prop :=
+  T_min tc <= T_min_seg tc /\ T_min_seg tc <= T_max_seg tc /\ T_max_seg tc <= T_max tc.
+
+Definition admissible (c : coeffs N) (tc : tconstr N) : Prop :=
+  bounds_ok tc /\
+  match model_type c, hdd_bp c, hdd_beta c, hdd_k c, cdd_bp c, cdd_beta c, cdd_k c with
+  | HddTiddCddSmooth, Some hb, Some hbeta, Some hk, Some cb, Some cbeta, Some ck =>
+      T_min_seg tc <= hb /\ hb <= cb /\ cb <= T_max_seg tc /\ 0 <= hbeta /\ 0 <= cbeta /\
+      0 <= hk <= 1 /\ 0 <= ck <= 1
+  | HddTiddCdd, Some hb, Some hbeta, _, Some cb, Some cbeta, _ =>
+      T_min_seg tc <= hb /\ hb <= cb /\ cb <= T_max_seg tc /\ 0 <= hbeta /\ 0 <= cbeta
+  | HddTiddSmooth, Some hb, Some hbeta, Some hk, _, _, _ =>
+      T_min_seg tc <= hb <= T_max_seg tc /\ hbeta <= 0 /\ 0 <= hk
+  | TiddCddSmooth, _, _, _, Some cb, Some cbeta, Some ck =>
+      T_min_seg tc <= cb <= T_max_seg tc /\ 0 <= cbeta /\ 0 <= ck
+  | HddTidd, Some hb, Some hbeta, _, _, _, _ => T_min_seg tc <= hb <= T_max_seg tc /\ hbeta <= 0
+  | TiddCdd, _, _, _, Some cb, Some cbeta, _ => T_min_seg tc <= cb <= T_max_seg tc /\ 0 <= cbeta
+  | Tidd, _, _, _, _, _, _ => True
+  | _, _, _, _, _, _, _ => False
+  end.
+
+Definition getR (o : option R) : R := match o with Some v => v | None => 0 end.
+
+(* the stored lower / upper balance point of a shape (0 for tidd, as in get_full_model_x) *)
+Definition lower_bp (c : coeffs N) : R :=
+  match model_type c with
+  | HddTiddCddSmooth | HddTiddCdd | HddTiddSmooth | HddTidd => getR (hdd_bp c)
+  | TiddCddSmooth | TiddCdd => getR (cdd_bp c)
+  | Tidd => 0
+  end.
+Definition upper_bp (c : coeffs N) : R :=
+  match model_type c with
+  | HddTiddCddSmooth | HddTiddCdd | TiddCddSmooth | TiddCdd => getR (cdd_bp c)
+  | HddTiddSmooth | HddTidd => getR (hdd_bp c)
+  | Tidd => 0
+  end.
+(* the stored slopes as magnitudes *)
+Definition heat_slope (c : coeffs N) : R :=
+  match model_type c with
+  | HddTiddCddSmooth | HddTiddCdd => getR (hdd_beta c)
+  | HddTiddSmooth | HddTidd => - getR (hdd_beta c)
+  | _ => 0
+  end.
+Definition cool_slope (c : coeffs N) : R :=
+  match model_type c with
+  | HddTiddCddSmooth | HddTiddCdd | TiddCddSmooth | TiddCdd => getR (cdd_beta c)
+  | _ => 0
+  end.
+
+Definition interior (c : coeffs N) (tc : tconstr N) : Prop :=
+  lower_bp c = upper_bp c \/ (T_min tc < lower_bp c /\ upper_bp c < T_max tc).
+
+Lemma effective_good : forall c tc, admissible c tc ->
+  exists x, effective_x N c tc = Some x /\ good x /\ x_intercept x = intercept c /\
+            lower_bp c <= x_hdd_bp x /\ x_cdd_bp x <= upper_bp c /\
+            (x_hdd_beta x = heat_slope c \/ x_hdd_beta x = 0) /\
+            (x_cdd_beta x = cool_slope c \/ x_cdd_beta x = 0) /\
+            (interior c tc -> x_hdd_beta x = heat_slope c /\ x_cdd_beta x = cool_slope c) /\
+            match model_type c with
+            | HddTiddCddSmooth => x_hdd_bp x - x_hdd_k x = lower_bp c /\ x_cdd_bp x + x_cdd_k x = upper_bp c
+            | _ => x_hdd_bp x = lower_bp c /\ x_cdd_bp x = upper_bp c
+            end.
+Proof.
+  intros [s i hb hbeta hk cb cbeta ck] [Tmin Tmax Tminseg Tmaxseg] [[B1 [B2 B3]] A].
+  unfold admissible, interior, lower_bp, upper_bp, heat_slope, cool_slope in *. cbn in *.
+  destruct s.
+  - (* hdd_tidd_cdd_smooth *)
+    destruct hb as [hb|], hbeta as [hbeta|], hk as [hk|], cb as [cb|], cbeta as [cbeta|], ck as [ck|];
+      try contradiction.
+    destruct A as (A1 & A2 & A3 & A4 & A5 & [A6 A6'] & [A7 A7']).
+    unfold effective_x. cbn.
+    destruct (fix_ordered hb hbeta hk cb cbeta ck i Tmin Tmax A2)
+      as (hbeta' & hk' & cbeta' & ck' & Hfix & Fb1 & Fb2 & Fk1 & Fk2 & Z1 & Z2 & _ & _ & Fint).
+    unfold mkx in Hfix. rewrite Hfix. cbn.
+    assert (Hhk' : 0 <= hk') by (destruct Fk1; lra).
+    assert (Hck' : 0 <= ck') by (destruct Fk2; lra).
+    destruct (smooth_coeffs_spec hb hk' cb ck' A2 Hhk' Hck') as (k1 & k2 & Hs & S1 & S2 & S3 & _).
+    rewrite Hs. cbn. eexists. split; [reflexivity|]. unfold good. cbn.
+    repeat split; try lra; auto; try (destruct Fb1, Fb2; lra); apply Fint; assumption.
+  - (* hdd_tidd_cdd *)
+    destruct hb as [hb|], hbeta as [hbeta|], cb as [cb|], cbeta as [cbeta|]; try contradiction.
+    destruct A as (A1 & A2 & A3 & A4 & A5).
+    unfold effective_x. cbn.
+    destruct (fix_ordered hb hbeta 0 cb cbeta 0 i Tmin Tmax A2)
+      as (hbeta' & hk' & cbeta' & ck' & Hfix & Fb1 & Fb2 & Fk1 & Fk2 & Z1 & Z2 & _ & _ & Fint).
+    unfold mkx in Hfix. change (@n_zero N) with 0. rewrite Hfix.
+    eexists. split; [reflexivity|]. unfold good. cbn.
+    repeat split; try lra; auto; try (destruct Fb1, Fb2, Fk1, Fk2; lra); apply Fint; assumption.
+  - (* hdd_tidd_smooth *)
+    destruct hb as [hb|], hbeta as [hbeta|], hk as [hk|]; try contradiction.
+    destruct A as ([A1 A2] & A3 & A4).
+    unfold effective_x, get_full_model_x. cbn. change (@n_zero N) with 0. unfold Rltb.
+    destruct (Rlt_dec hbeta 0) as [Hn|Hn].
+    + destruct (fix_ordered hb (- hbeta) hk hb 0 0 i Tmin Tmax (Rle_refl hb))
+        as (hbeta' & hk' & cbeta' & ck' & Hfix & Fb1 & Fb2 & Fk1 & Fk2 & Z1 & Z2 & _ & _ & Fint).
+      unfold mkx in Hfix. rewrite Hfix.
+      eexists. split; [reflexivity|]. unfold good. cbn.
+      destruct (Fint (or_introl eq_refl)) as [I1 I2].
+      repeat split; try lra; auto; try (destruct Fb1, Fb2, Fk1, Fk2; lra).
+    + assert (hbeta = 0) by lra. subst hbeta.
+      destruct (fix_ordered hb 0 0 hb 0 hk i Tmin Tmax (Rle_refl hb))
+        as (hbeta' & hk' & cbeta' & ck' & Hfix & Fb1 & Fb2 & Fk1 & Fk2 & Z1 & Z2 & _ & _ & Fint).
+      unfold mkx in Hfix. rewrite Hfix.
+      eexists. split; [reflexivity|]. unfold good. cbn.
+      destruct (Fint (or_introl eq_refl)) as [I1 I2].
+      repeat split; try lra; auto; try (destruct Fb1, Fb2, Fk1, Fk2; lra).
+  - (* tidd_cdd_smooth *)
+    destruct cb as [cb|], cbeta as [cbeta|], ck as [ck|]; try contradiction.
+    destruct A as ([A1 A2] & A3 & A4).
+    unfold effective_x, get_full_model_x. cbn. change (@n_zero N) with 0. unfold Rltb.
+    destruct (Rlt_dec cbeta 0) as [Hn|Hn]; [lra|].
+    destruct (fix_ordered cb 0 0 cb cbeta ck i Tmin Tmax (Rle_refl cb))
+      as (hbeta' & hk' & cbeta' & ck' & Hfix & Fb1 & Fb2 & Fk1 & Fk2 & Z1 & Z2 & _ & _ & Fint).
+    unfold mkx in Hfix. rewrite Hfix.
+    eexists. split; [reflexivity|]. unfold good. cbn.
+    destruct (Fint (or_introl eq_refl)) as [I1 I2].
+    repeat split; try lra; auto; try (destruct Fb1, Fb2, Fk1, Fk2; lra).
+  - (* hdd_tidd *)
+    destruct hb as [hb|], hbeta as [hbeta|]; try contradiction.
+    destruct A as ([A1 A2] & A3).
+    unfold effective_x, get_full_model_x. cbn. change (@n_zero N) with 0. unfold n_gtb. cbn. unfold Rltb.
+    destruct (Rlt_dec hb Tminseg) as [Hc1|Hc1]; [lra|]. destruct (Rlt_dec Tmaxseg hb) as [Hc2|Hc2]; [lra|].
+    destruct (Rlt_dec hbeta 0) as [Hn|Hn].
+    + destruct (fix_ordered hb (- hbeta) 0 hb 0 0 i Tmin Tmax (Rle_refl hb))
+        as (hbeta' & hk' & cbeta' & ck' & Hfix & Fb1 & Fb2 & Fk1 & Fk2 & Z1 & Z2 & _ & _ & Fint).
+      unfold mkx in Hfix. rewrite Hfix.
+      eexists. split; [reflexivity|]. unfold good. cbn.
+      destruct (Fint (or_introl eq_refl)) as [I1 I2].
+      repeat split; try lra; auto; try (destruct Fb1, Fb2, Fk1, Fk2; lra).
+    + assert (hbeta = 0) by lra. subst hbeta.
+      destruct (fix_ordered hb 0 0 hb 0 0 i Tmin Tmax (Rle_refl hb))
+        as (hbeta' & hk' & cbeta' & ck' & Hfix & Fb1 & Fb2 & Fk1 & Fk2 & Z1 & Z2 & _ & _ & Fint).
+      unfold mkx in Hfix. rewrite Hfix.
+      eexists. split; [reflexivity|]. unfold good. cbn.
+      destruct (Fint (or_introl eq_refl)) as [I1 I2].
+      repeat split; try lra; auto; try (destruct Fb1, Fb2, Fk1, Fk2; lra).
+  - (* tidd_cdd *)
+    destruct cb as [cb|], cbeta as [cbeta|]; try contradiction.
+    destruct A as ([A1 A2] & A3).
+    unfold effective_x, get_full_model_x. cbn. change (@n_zero N) with 0. unfold n_gtb. cbn. unfold Rltb.
+    destruct (Rlt_dec cb Tminseg) as [Hc1|Hc1]; [lra|]. destruct (Rlt_dec Tmaxseg cb) as [Hc2|Hc2]; [lra|].
+    destruct (Rlt_dec cbeta 0) as [Hn|Hn]; [lra|].
+    destruct (fix_ordered cb 0 0 cb cbeta 0 i Tmin Tmax (Rle_refl cb))
+      as (hbeta' & hk' & cbeta' & ck' & Hfix & Fb1 & Fb2 & Fk1 & Fk2 & Z1 & Z2 & _ & _ & Fint).
+    unfold mkx in Hfix. rewrite Hfix.
+    eexists. split; [reflexivity|]. unfold good. cbn.
+    destruct (Fint (or_introl eq_refl)) as [I1 I2].
+    repeat split; try lra; auto; try (destruct Fb1, Fb2, Fk1, Fk2; lra).
+  - (* tidd *)
+    unfold effective_x. cbn. change (@n_zero N) with 0.
+    destruct (fix_ordered 0 0 0 0 0 0 i Tmin Tmax (Rle_refl 0))
+      as (hbeta' & hk' & cbeta' & ck' & Hfix & Fb1 & Fb2 & Fk1 & Fk2 & Z1 & Z2 & _ & _ & Fint).
+    unfold mkx in Hfix. rewrite Hfix.
+    eexists. split; [reflexivity|]. unfold good. cbn.
+    destruct (Fint (or_introl eq_refl)) as [I1 I2].
+    repeat split; try lra; auto; try (destruct Fb1, Fb2, Fk1, Fk2; lra).
+Qed.
+
+(* ---------------- the three columns of _predict_submodel in closed form *)
+Definition off_corner_x (x : fullx N) (tc : tconstr N) : Prop :=
+  (x_hdd_bp x = x_cdd_bp x -> x_cdd_bp x < T_max tc) \/ (x_hdd_beta x = 0 /\ x_cdd_beta x = 0).
+
+Definition heat_part (x : fullx N) (T : R) : R := branch lo (x_hdd_beta x) (x_hdd_k x) (pos (x_hdd_bp x - T)).
+Definition cool_part (x : fullx N) (T : R) : R := branch lo (x_cdd_beta x) (x_cdd_k x) (pos (T - x_cdd_bp x)).
+
+Lemma loads_of_closed : forall (x : fullx N) (tc : tconstr N) (T : R), good x -> off_corner_x x tc ->
+  loads_of N x (T_min tc) (T_max tc) T =
+    (x_intercept x + heat_part x T + cool_part x T, heat_part x T, cool_part x T).
+Proof.
+  intros [hbp hbeta hk cbp cbeta ck icpt] tc T (G1 & G2 & G3 & G4 & G5) Hoff.
+  unfold good, off_corner_x, heat_part, cool_part in *. cbn in *.
+  unfold loads_of.
+  pose proof (full_model1_curve hbp hbeta hk cbp cbeta ck icpt (T_min tc) (T_max tc) T G1 G2 G3 G4 G5 Hoff) as HE.
+  unfold mkx in HE. rewrite HE. cbn. unfold n_geb. cbn. unfold Rleb.
+  assert (HT : curve lo hbp hbeta hk cbp cbeta ck icpt T =
+               icpt + branch lo hbeta hk (pos (hbp - T)) + branch lo cbeta ck (pos (T - cbp))) by reflexivity.
+  destruct (Rle_dec T hbp) as [H1|H1]; destruct (Rle_dec cbp T) as [H2|H2].
+  - assert (T = hbp) by lra. assert (T = cbp) by lra. subst hbp. subst cbp.
+    rewrite HT. replace (T - T) with 0 by ring. rewrite (pos_of_nonneg 0) by lra. rewrite !branch_0 by lra.
+    apply f_equal2; [apply f_equal2|]; ring.
+  - rewrite HT. rewrite (pos_of_nonpos (T - cbp)) by lra. rewrite !branch_0 by lra.
+    apply f_equal2; [apply f_equal2|]; ring.
+  - rewrite HT. rewrite (pos_of_nonpos (hbp - T)) by lra. rewrite !branch_0 by lra.
+    apply f_equal2; [apply f_equal2|]; ring.
+  - rewrite HT. rewrite (pos_of_nonpos (hbp - T)) by lra. rewrite (pos_of_nonpos (T - cbp)) by lra.
+    rewrite !branch_0 by lra. apply f_equal2; [apply f_equal2|]; ring.
+Qed.
+
+(* observation functions (total: 0 where the document does not evaluate, excluded by [admissible]) *)
+Definition zero_x : fullx N := mkx 0 0 0 0 0 0 0.
+Definition eff (c : coeffs N) (tc : tconstr N) : fullx N :=
+  match effective_x N c tc with Some x => x | None => zero_x end.
+Definition predicted (c : coeffs N) (tc : tconstr N) (T : R) : R :=
+  match predict_submodel N c tc T with Some (p, _, _) => p | None => 0 end.
+Definition heating_load (c : coeffs N) (tc : tconstr N) (T : R) : R :=
+  match predict_submodel N c tc T with Some (_, h, _) => h | None => 0 end.
+Definition cooling_load (c : coeffs N) (tc : tconstr N) (T : R) : R :=
+  match predict_submodel N c tc T with Some (_, _, k) => k | None => 0 end.
+
+Definition off_corner (c : coeffs N) (tc : tconstr N) : Prop := off_corner_x (eff c tc) tc.
+
+Lemma eff_good : forall c tc, admissible c tc ->
+  effective_x N c tc = Some (eff c tc) /\ good (eff c tc) /\ x_intercept (eff c tc) = intercept c.
+Proof.
+  intros c tc A. destruct (effective_good c tc A) as (x & Hx & G & I & _). unfold eff. rewrite Hx. auto.
+Qed.
+
+Lemma upper_below_Tmax_off_corner : forall c tc, admissible c tc -> upper_bp c < T_max tc -> off_corner c tc.
+Proof.
+  intros c tc A H. destruct (effective_good c tc A) as (x & Hx & G & I & L & U & _).
+  unfold off_corner, eff. rewrite Hx. left. intros _. lra.
+Qed.
+
+Lemma slopes_nonneg : forall c tc, admissible c tc -> 0 <= heat_slope c /\ 0 <= cool_slope c.
+Proof.
+  intros [s i hb hbeta hk cb cbeta ck] tc [_ A]. unfold admissible, heat_slope, cool_slope in *. cbn in *.
+  destruct s, hb, hbeta, hk, cb, cbeta, ck; cbn; try contradiction; lra.
+Qed.
+
+Section Curve.
+Variable c : coeffs N.
+Variable tc : tconstr N.
+Hypothesis Hadm : admissible c tc.
+Hypothesis Hoff : off_corner c tc.
+Notation x := (eff c tc).
+Notation E := (predicted c tc).
+
+Lemma predict_closed : forall T : R,
+  predict_submodel N c tc T = Some (intercept c + heat_part x T + cool_part x T, heat_part x T, cool_part x T).
+Proof.
+  intros T. destruct (eff_good c tc Hadm) as (Hx & G & I).
+  unfold predict_submodel. rewrite Hx. rewrite loads_of_closed by assumption. rewrite I. reflexivity.
+Qed.
+
+Lemma predicted_curve : forall T : R,
+  E T = curve lo (x_hdd_bp x) (x_hdd_beta x) (x_hdd_k x) (x_cdd_bp x) (x_cdd_beta x) (x_cdd_k x) (intercept c) T.
+Proof. intros T. unfold predicted. rewrite predict_closed. reflexivity. Qed.
+
+Lemma heating_load_closed : forall T : R, heating_load c tc T = heat_part x T.
+Proof. intros T. unfold heating_load. rewrite predict_closed. reflexivity. Qed.
+Lemma cooling_load_closed : forall T : R, cooling_load c tc T = cool_part x T.
+Proof. intros T. unfold cooling_load. rewrite predict_closed. reflexivity. Qed.
+
+Lemma E_ext : E = curve lo (x_hdd_bp x) (x_hdd_beta x) (x_hdd_k x) (x_cdd_bp x) (x_cdd_beta x) (x_cdd_k x) (intercept c).
+Proof. apply FunctionalExtensionality.functional_extensionality. exact predicted_curve. Qed.
+
+Lemma p_continuous : continuity E.
+Proof.
+  destruct (eff_good c tc Hadm) as (_ & (G1 & G2 & G3 & G4 & G5) & _).
+  rewrite E_ext. apply curve_continuous; assumption.
+Qed.
+
+Lemma p_lipschitz : forall T1 T2 : R,
+  Rabs (E T1 - E T2) <= Rmax (x_hdd_beta x) (x_cdd_beta x) * Rabs (T1 - T2).
+Proof.
+  destruct (eff_good c tc Hadm) as (_ & (G1 & G2 & G3 & G4 & G5) & _).
+  intros. rewrite !predicted_curve. apply curve_lipschitz; assumption.
+Qed.
+
+Lemma p_flat : forall T : R, x_hdd_bp x <= T <= x_cdd_bp x -> E T = intercept c.
+Proof.
+  destruct (eff_good c tc Hadm) as (_ & (G1 & G2 & G3 & G4 & G5) & _).
+  intros. rewrite predicted_curve. apply curve_flat; assumption.
+Qed.
+
+Lemma p_ge_base : forall T : R, intercept c <= E T.
+Proof.
+  destruct (eff_good c tc Hadm) as (_ & (G1 & G2 & G3 & G4 & G5) & _).
+  intros. rewrite predicted_curve. apply curve_ge_base; assumption.
+Qed.
+
+Lemma p_heating_monotone : forall T1 T2 : R, T1 <= T2 -> T2 <= x_hdd_bp x -> E T2 <= E T1.
+Proof.
+  destruct (eff_good c tc Hadm) as (_ & (G1 & G2 & G3 & G4 & G5) & _).
+  intros. rewrite !predicted_curve. apply curve_heating_monotone; assumption.
+Qed.
+
+Lemma p_cooling_monotone : forall T1 T2 : R, x_cdd_bp x <= T1 -> T1 <= T2 -> E T1 <= E T2.
+Proof.
+  destruct (eff_good c tc Hadm) as (_ & (G1 & G2 & G3 & G4 & G5) & _).
+  intros. rewrite !predicted_curve. apply curve_cooling_monotone; assumption.
+Qed.
+
+Lemma p_heating_remainder : forall T : R, T <= x_hdd_bp x ->
+  E T - (intercept c + x_hdd_beta x * ((x_hdd_bp x - x_hdd_k x) - T)) =
+  x_hdd_beta x * x_hdd_k x * sm lo (x_hdd_k x) (x_hdd_bp x - T).
+Proof.
+  destruct (eff_good c tc Hadm) as (_ & (G1 & G2 & G3 & G4 & G5) & _).
+  intros. rewrite predicted_curve. apply curve_heating_remainder; assumption.
+Qed.
+
+Lemma p_cooling_remainder : forall T : R, x_cdd_bp x <= T ->
+  E T - (intercept c + x_cdd_beta x * (T - (x_cdd_bp x + x_cdd_k x))) =
+  x_cdd_beta x * x_cdd_k x * sm lo (x_cdd_k x) (T - x_cdd_bp x).
+Proof.
+  destruct (eff_good c tc Hadm) as (_ & (G1 & G2 & G3 & G4 & G5) & _).
+  intros. rewrite predicted_curve. apply curve_cooling_remainder; assumption.
+Qed.
+
+Lemma p_heating_linear : forall T : R, x_hdd_k x = 0 -> T <= x_hdd_bp x ->
+  E T = intercept c + x_hdd_beta x * (x_hdd_bp x - T).
+Proof.
+  intros T Hk HT. pose proof (p_heating_remainder T HT) as H. rewrite Hk in H.
+  rewrite Rmult_0_r, Rmult_0_l, Rminus_0_r in H. lra.
+Qed.
+
+Lemma p_cooling_linear : forall T : R, x_cdd_k x = 0 -> x_cdd_bp x <= T ->
+  E T = intercept c + x_cdd_beta x * (T - x_cdd_bp x).
+Proof.
+  intros T Hk HT. pose proof (p_cooling_remainder T HT) as H. rewrite Hk in H.
+  rewrite Rmult_0_r, Rmult_0_l, Rplus_0_r in H. lra.
+Qed.
+
+(* smoothed: the distance to the asymptote is beta k e^(-d/k) as long as the exponent is not clipped *)
+Lemma p_heating_remainder_exp : forall T : R, T <= x_hdd_bp x -> lo <= - ((x_hdd_bp x - T) / x_hdd_k x) ->
+  E T - (intercept c + x_hdd_beta x * ((x_hdd_bp x - x_hdd_k x) - T)) =
+  x_hdd_beta x * x_hdd_k x * exp (- ((x_hdd_bp x - T) / x_hdd_k x)).
+Proof. intros T HT Hc. rewrite p_heating_remainder by exact HT. rewrite sm_unclipped by exact Hc. reflexivity. Qed.
+
+Lemma p_cooling_remainder_exp : forall T : R, x_cdd_bp x <= T -> lo <= - ((T - x_cdd_bp x) / x_cdd_k x) ->
+  E T - (intercept c + x_cdd_beta x * (T - (x_cdd_bp x + x_cdd_k x))) =
+  x_cdd_beta x * x_cdd_k x * exp (- ((T - x_cdd_bp x) / x_cdd_k x)).
+Proof. intros T HT Hc. rewrite p_cooling_remainder by exact HT. rewrite sm_unclipped by exact Hc. reflexivity. Qed.
+
+(* ... and it vanishes far from the balance point, down to the floor e^lo that the clip leaves *)
+Lemma p_heating_asymptote : forall eps : R, 0 < eps -> exists M : R, forall T : R, T < M ->
+  0 <= E T - (intercept c + x_hdd_beta x * ((x_hdd_bp x - x_hdd_k x) - T))
+    <= x_hdd_beta x * x_hdd_k x * (eps + exp lo).
+Proof.
+  destruct (eff_good c tc Hadm) as (_ & (G1 & G2 & G3 & G4 & G5) & _).
+  intros eps Heps. exists (x_hdd_bp x - x_hdd_k x / eps). intros T HT.
+  assert (Hq : 0 <= x_hdd_k x / eps) by (apply Rmult_le_pos; [exact G4 | left; apply Rinv_0_lt_compat; exact Heps]).
+  rewrite p_heating_remainder by lra.
+  pose proof (sm_pos lo (x_hdd_k x) (x_hdd_bp x - T)) as Hp.
+  pose proof (exp_pos lo) as Hel.
+  assert (Hbk : 0 <= x_hdd_beta x * x_hdd_k x) by (apply Rmult_le_pos; assumption).
+  destruct G4 as [G4|G4].
+  - split; [apply Rmult_le_pos; lra|].
+    apply Rmult_le_compat_l; [exact Hbk|]. left. apply sm_small; try assumption. lra.
+  - rewrite <- G4. rewrite Rmult_0_r, !Rmult_0_l. lra.
+Qed.
+
+Lemma p_cooling_asymptote : forall eps : R, 0 < eps -> exists M : R, forall T : R, M < T ->
+  0 <= E T - (intercept c + x_cdd_beta x * (T - (x_cdd_bp x + x_cdd_k x)))
+    <= x_cdd_beta x * x_cdd_k x * (eps + exp lo).
+Proof.
+  destruct (eff_good c tc Hadm) as (_ & (G1 & G2 & G3 & G4 & G5) & _).
+  intros eps Heps. exists (x_cdd_bp x + x_cdd_k x / eps). intros T HT.
+  assert (Hq : 0 <= x_cdd_k x / eps) by (apply Rmult_le_pos; [exact G5 | left; apply Rinv_0_lt_compat; exact Heps]).
+  rewrite p_cooling_remainder by lra.
+  pose proof (sm_pos lo (x_cdd_k x) (T - x_cdd_bp x)) as Hp.
+  pose proof (exp_pos lo) as Hel.
+  assert (Hbk : 0 <= x_cdd_beta x * x_cdd_k x) by (apply Rmult_le_pos; assumption).
+  destruct G5 as [G5|G5].
+  - split; [apply Rmult_le_pos; lra|].
+    apply Rmult_le_compat_l; [exact Hbk|]. left. apply sm_small; try assumption. lra.
+  - rewrite <- G5. rewrite Rmult_0_r, !Rmult_0_l. lra.
+Qed.
+
+(* loads *)
+Lemma loads_nonneg : forall T : R, 0 <= heating_load c tc T /\ 0 <= cooling_load c tc T.
+Proof.
+  destruct (eff_good c tc Hadm) as (_ & (G1 & G2 & G3 & G4 & G5) & _).
+  intros T. rewrite heating_load_closed, cooling_load_closed. unfold heat_part, cool_part.
+  split; apply branch_nonneg; try assumption; apply pos_nonneg.
+Qed.
+
+Lemma loads_exclusive : forall T : R, heating_load c tc T = 0 \/ cooling_load c tc T = 0.
+Proof.
+  destruct (eff_good c tc Hadm) as (_ & (G1 & G2 & G3 & G4 & G5) & _).
+  intros T. rewrite heating_load_closed, cooling_load_closed. unfold heat_part, cool_part.
+  destruct (Rle_dec (x_hdd_bp x) T) as [H|H].
+  - left. rewrite pos_of_nonpos by lra. apply branch_0. exact Hlo.
+  - right. rewrite pos_of_nonpos by lra. apply branch_0. exact Hlo.
+Qed.
+
+Lemma loads_add_up : forall T : R, intercept c + heating_load c tc T + cooling_load c tc T = E T.
+Proof.
+  intros T. unfold heating_load, cooling_load, predicted. rewrite predict_closed. reflexivity.
+Qed.
+
+(* a load is carried only on its own side of its balance point *)
+Lemma heating_load_zero_above : forall T : R, x_hdd_bp x <= T -> heating_load c tc T = 0.
+Proof.
+  intros T H. rewrite heating_load_closed. unfold heat_part. rewrite pos_of_nonpos by lra. apply branch_0. exact Hlo.
+Qed.
+Lemma cooling_load_zero_below : forall T : R, T <= x_cdd_bp x -> cooling_load c tc T = 0.
+Proof.
+  intros T H. rewrite cooling_load_closed. unfold cool_part. rewrite pos_of_nonpos by lra. apply branch_0. exact Hlo.
+Qed.
+
+
+Lemma p_lipschitz_stored : forall T1 T2 : R,
+  Rabs (E T1 - E T2) <= Rmax (heat_slope c) (cool_slope c) * Rabs (T1 - T2).
+Proof.
+  intros T1 T2. destruct (slopes_nonneg c tc Hadm) as [N1 N2].
+  destruct (effective_good c tc Hadm) as (x0 & Hx & (G1 & G2 & G3 & G4 & G5) & I & L & U & S1 & S2 & _).
+  pose proof (p_lipschitz T1 T2) as HL. unfold eff in HL. rewrite Hx in HL.
+  eapply Rle_trans; [exact HL|]. apply Rmult_le_compat_r; [apply Rabs_pos|].
+  pose proof (Rmax_l (heat_slope c) (cool_slope c)). pose proof (Rmax_r (heat_slope c) (cool_slope c)).
+  apply Rmax_lub; [destruct S1 as [S1|S1] | destruct S2 as [S2|S2]]; rewrite ?S1, ?S2; lra.
+Qed.
+End Curve.
+
+(* ---------------- get_smooth_coeffs keeps the order, so full_model's swap never fires on admissible documents *)
+Lemma smooth_coeffs_order : forall hbp ph cbp pc : R, hbp <= cbp -> 0 <= ph -> 0 <= pc ->
+  let '(hbp', hk, cbp', ck) := get_smooth_coeffs N hbp ph cbp pc in
+  hbp <= hbp' /\ hbp' <= cbp' /\ cbp' <= cbp /\ 0 <= hk /\ 0 <= ck.
+Proof.
+  intros hbp ph cbp pc H1 H2 H3.
+  destruct (smooth_coeffs_spec hbp ph cbp pc H1 H2 H3) as (hk & ck & Hs & S1 & S2 & S3 & _).
+  rewrite Hs. repeat split; lra.
+Qed.
+
+Lemma effective_ordered : forall c tc, admissible c tc ->
+  order_bps N (eff c tc) = eff c tc.
+Proof.
+  intros c tc A. destruct (eff_good c tc A) as (_ & (G1 & _) & _).
+  destruct (eff c tc) as [a b d e f g h]. cbn in G1. apply (order_bps_id a b d e f g h G1).
+Qed.
+
+(* ---------------- the regime-switch corner: equal balance points at or above T_max *)
+Lemma regime_corner : forall hbp hbeta hk cbeta ck icpt Tmin Tmax T : R, Tmax <= hbp ->
+  regime N (mkx hbp hbeta hk hbp cbeta ck icpt) Tmin Tmax T = (- hbeta, hk, hbp).
+Proof.
+  intros * H. unfold regime. cbn. unfold n_geb. cbn. unfold Rltb, Reqb, Rleb.
+  destruct (Rlt_dec T hbp); [reflexivity|]. destruct (Req_EM_T hbp hbp); [|lra].
+  destruct (Rle_dec Tmax hbp); [reflexivity | lra].
+Qed.
+
+(* the heating line is evaluated on both sides of the balance point *)
+Lemma full_model1_corner_unsmoothed : forall hbp hbeta cbeta ck icpt Tmin Tmax T : R,
+  Tmax <= hbp -> hbeta <> 0 ->
+  full_model1 N (mkx hbp hbeta 0 hbp cbeta ck icpt) Tmin Tmax T = icpt + hbeta * (hbp - T).
+Proof.
+  intros * H Hb. unfold full_model1. rewrite order_bps_id by lra.
+  change (x_hdd_beta (mkx hbp hbeta 0 hbp cbeta ck icpt)) with hbeta.
+  change (@n_eqb N hbeta n_zero) with (Reqb hbeta 0).
+  assert (Hz : Reqb hbeta 0 = false) by (apply Reqb_false; exact Hb). rewrite Hz. cbn [andb].
+  rewrite regime_corner by exact H. unfold evaluate. cbn. unfold Reqb.
+  destruct (Req_EM_T (- hbeta) 0); [lra|]. destruct (Req_EM_T 0 0); [|lra]. ring.
+Qed.
+
+(* a heating-only unsmoothed document whose balance point is T_max: the heating line on BOTH sides *)
+Lemma corner_hdd_tidd : forall (i bp beta Tmin Tminseg T : R),
+  Tminseg <= bp -> beta < 0 -> bp < T ->
+  predict_submodel N (Build_coeffs N HddTidd i (Some bp) (Some beta) None None None None)
+                     (Build_tconstr N Tmin bp Tminseg bp) T
+  = Some (i + - beta * (bp - T), 0, - beta * (bp - T)).
+Proof.
+  intros i bp beta Tmin Tminseg T H1 H2 H3.
+  unfold predict_submodel, effective_x, get_full_model_x. cbn.
+  unfold n_gtb. cbn. unfold Rltb.
+  destruct (Rlt_dec bp Tminseg); [lra|]. destruct (Rlt_dec bp bp); [lra|]. destruct (Rlt_dec beta 0); [|lra].
+  change (@n_zero N) with 0.
+  destruct (fix_ordered bp (- beta) 0 bp 0 0 i Tmin bp (Rle_refl bp))
+    as (hbeta' & hk' & cbeta' & ck' & Hfix & Fb1 & Fb2 & Fk1 & Fk2 & Z1 & Z2 & _ & _ & Fint).
+  unfold mkx in Hfix. rewrite Hfix.
+  destruct (Fint (or_introl eq_refl)) as [I1 I2].
+  assert (hk' = 0) by (destruct Fk1; assumption). assert (ck' = 0) by (destruct Fk2; assumption).
+  subst hbeta' cbeta' hk' ck'.
+  unfold loads_of.
+  pose proof (full_model1_corner_unsmoothed bp (- beta) 0 0 i Tmin bp T (Rle_refl bp)) as HE.
+  unfold mkx in HE. rewrite HE by lra. cbn. unfold n_geb. cbn. unfold Rleb.
+  destruct (Rle_dec T bp); [lra|]. destruct (Rle_dec bp T); [|lra].
+  f_equal. apply f_equal2; [reflexivity | ring].
+Qed.
+End ModelFacts.
+
+(* the floor the clip leaves under the smoothing factor is below 2^-331 *)
+Lemma exp_nat_ge : forall n : nat, 2 ^ n <= exp (INR n).
+Proof.
+  induction n as [|n IH].
+  - simpl. rewrite exp_0. lra.
+  - rewrite S_INR, exp_plus. simpl pow.
+    pose proof (Rpower.exp_ineq1_le 1) as H1. pose proof (exp_pos (INR n)) as Hp.
+    assert (H2 : 2 <= exp 1) by lra.
+    assert (Hpow : 0 <= 2 ^ n) by (apply pow_le; lra).
+    rewrite Rmult_comm. apply Rmult_le_compat; lra.
+Qed.
+
+Lemma exp_ln_min_tiny : exp R_ln_min <= / 2 ^ 331.
+Proof.
+  assert (H : R_ln_min <= - INR 331).
+  { rewrite INR_IZR_INZ. unfold R_ln_min. simpl Z.of_nat.
+    apply Ropp_le_contravar. apply Rmult_le_reg_r with 17592186044416; [lra|].
+    unfold Rdiv. rewrite Rmult_assoc, Rinv_l by lra. lra. }
+  apply Rle_trans with (exp (- INR 331)).
+  - destruct H as [H|H]; [left; apply exp_increasing; exact H | right; rewrite H; reflexivity].
+  - rewrite exp_Ropp. apply Rinv_le_contravar; [apply pow_lt; lra | apply exp_nat_ge].
+Qed.
